@@ -21,7 +21,7 @@ FLOORS = {'quick': {'route-eval': 3000, 'ctrlpts2d': 300, 'manager': 300, 'flip-
                     'extract-construct': 200, 'sweep': 60},
           'thorough': {'route-eval': 30000, 'extract-construct': 2000}}
 MANDATORY_TAGS = ['surface', 'volume', 'rational', 'construct:u', 'construct:v', 'construct:w', 'cs:u', 'cs:v', 'sweep:curve',
-                  'sweep:surface', 'extract:uv', 'extract:uw', 'extract:vw']
+                  'sweep:surface', 'extract:uv', 'extract:uw', 'extract:vw', 'transpose:trimmed', 'transpose:trim-container']
 TECHNIQUE = ("runtime monitoring: behavioural oracle - every route of putting a harness-owned control net into / getting it out of "
              "a shape is judged by exact evaluation against the reference model of that net")
 LEVEL_TEXT = ("Every layout-dependent API route the workload exercises is judged by evaluating the resulting shape against the "
@@ -186,6 +186,51 @@ def check_surface(case, ctx):
     if G.degrees_of(tm) == [q, p] and G.sizes_of(tm) == [nv, nu]:
         if not judge(ctx, rng, tm, St, 'route/transpose-method', 'Surface.transpose() is not S\'(u,v) = S(v,u)', what='transpose'):
             return
+    # a trimmed surface: trim curves live in the (u, v) parameter space, so swapping the roles of u and v swaps their coordinates too
+    if rng.random() < 0.4:
+        from geomdl import freeform
+        ts = copy.deepcopy(s1)
+        (ua, ub), (va, vb) = G.domains_of(ts)
+        loop = [[ua + x * (ub - ua), va + y * (vb - va)] for x, y in ((0.15, 0.55), (0.35, 0.55), (0.35, 0.9), (0.15, 0.9), (0.15, 0.55))]
+        kind_ = rng.choice(['freeform', 'spline', 'rational-spline', 'container'])
+        if kind_ == 'freeform':
+            tr = freeform.Freeform()
+            tr.evaluate(points=loop)
+        else:
+            from geomdl import BSpline, NURBS, knotvector, multi
+
+            def spl(pts_, rat):
+                c_ = (NURBS if rat else BSpline).Curve()
+                c_.degree = 1
+                c_.ctrlpts = [list(p_) for p_ in pts_]
+                c_.knotvector = knotvector.generate(1, len(pts_))
+                if rat:
+                    c_.weights = [1.0, 2.0, 0.5, 1.5, 1.0][:len(pts_)]
+                return c_
+            if kind_ == 'container':
+                tr = multi.CurveContainer(spl(loop[:3], False), spl(loop[2:], False))
+            else:
+                tr = spl(loop, kind_ == 'rational-spline')
+        ts.trims = [tr]
+        ctx.tag('transpose:trimmed', 'transpose:trim-' + kind_)
+        before = [list(ts.evaluate_single((x, y))) for x, y in loop]
+        tt = operations.transpose(ts, inplace=False)
+        (ua2, ub2), (va2, vb2) = G.domains_of(tt)
+        def tpts(t_):
+            if t_.type == 'container':
+                return [p_ for e_ in t_ for p_ in tpts(e_)]
+            return [list(p_) for p_ in (t_.evalpts if t_.type == 'freeform' else t_.ctrlpts)]
+        pts_after = [p_ for t_ in tt.trims for p_ in tpts(t_)]
+        ok_t = len(pts_after) >= len(loop) and all(ua2 - 1e-9 <= x <= ub2 + 1e-9 and va2 - 1e-9 <= y <= vb2 + 1e-9 for x, y in pts_after)
+        if ok_t:
+            after = [list(tt.evaluate_single((x, y))) for x, y in pts_after]
+            sc_ = max(1.0, max(abs(c) for q_ in before for c in q_))
+            # same boundary as a point set (either orientation)
+            ok_t = all(min(max(abs(a - b) for a, b in zip(q_, r_)) for r_ in after) <= 1e-9 * sc_ for q_ in before)
+        ctx.check([list(p_) for t_ in ts.trims for p_ in tpts(t_)][:len(loop)] == [list(p_) for p_ in (loop if kind_ != 'container' else loop[:3] + loop[2:])][:len(loop)],
+                  'transpose/input-trims-modified', 'transpose(inplace=False) changed the trim curves of its input', what='transpose')
+        ctx.check(ok_t, 'transpose/trims-not-transposed', 'transpose of a trimmed surface: the trim boundary no longer bounds the same region of the '
+                  'surface (its curves keep their (u, v) coordinates while u and v swap roles)', what='transpose')
     # flip: net reversed in both directions
     fl = operations.flip(copy.deepcopy(s1), inplace=rng.random() < 0.5)
     g2 = fl.ctrlpts2d
